@@ -177,9 +177,11 @@ def render_task(wf, t):
         pass
     if wi:
         d['with-items'] = '%s in %s' % (
-            wi['var'], render_expr(wi['list'], lang, name))
+            wi['var'], render_expr(wi['list'], lang, name, True))
     if t.get('concurrency') is not None:
-        d['concurrency'] = render_expr(t['concurrency'], lang, name)
+        c = t['concurrency']
+        d['concurrency'] = render_expr(c, lang, name, True) \
+            if isinstance(c, list) else c
     if t.get('join') is not None:
         d['join'] = t['join']
     if t.get('requires'):
